@@ -256,7 +256,13 @@ def serialize(res: UnitResult, tag: str = "") -> dict:
             meta["pre_verdict"] = "unsat"  # the goal is literally `true` on this path: nothing to ask a solver
             obs.append({"name": name, "kind": ob.kind, "path": ob.path, "smt2": "", "watch": {}, "meta": meta})
             continue
-        obs.append({"name": name, "kind": ob.kind, "path": ob.path, "smt2": to_smt2(ob), "watch": watch, "meta": meta})
+        entry = {"name": name, "kind": ob.kind, "path": ob.path, "smt2": to_smt2(ob), "watch": watch, "meta": meta}
+        if "str.replace" in entry["smt2"] and ob.kind != "canary":
+            # a weaker hypothesis set (sound: fewer assumptions): hypotheses built from str.replace chains stall both solvers
+            keep = [h for h in ob.hyps if "str.replace" not in h.sexpr()]
+            if len(keep) < len(ob.hyps):
+                entry["smt2_relaxed"] = to_smt2(Obligation(ob.name, ob.kind, keep, ob.goal, ob.path, {"watch": ob.meta.get("watch")}))
+        obs.append(entry)
     return {
         "found": res.found, "file": res.file, "lines": list(res.lines), "src_hash": res.src_hash, "obligations": obs, "undecided": res.undecided,
         "paths": res.paths, "covers": res.covers, "calls_used": res.calls_used, "gen_s": res.gen_s, "error": res.error,
